@@ -666,13 +666,19 @@ def runProposalMsgs (msgs : List Msg) (s : State) : State × Bool :=
 
 /-! ## message server -/
 
+/-- the time under which `ActivateVotingPeriod` enters the proposal into the active queue: the voting end it stores
+(regenerated: the queue key is `*proposal.VotingEndTime`); otherwise the end computed from the default period of the kind -/
+def activationQueueTime (s : State) (p : Proposal) : Nat :=
+  if activationQueueKeyIsVotingEnd then s.time + activationPeriod s p
+  else s.time + (if p.expedited then s.params.expVotingPeriod else s.params.votingPeriod)
+
 /-- `ActivateVotingPeriod` -/
 def activate (s : State) (p : Proposal) : State :=
   let vp := activationPeriod s p
   let p' := { p with status := .voting, votingStart := s.time, votingEnd := s.time + vp }
   { s with props := putProp s.props p',
            inactive := removeQ (p.depositEnd, p.id) s.inactive,
-           active := insertQ (s.time + vp, p.id) s.active }
+           active := insertQ (activationQueueTime s p, p.id) s.active }
 
 /-- `proposal.GetMinDepositFromParams(params)` -/
 def defaultMin (s : State) (expedited : Bool) : Nat :=
